@@ -339,7 +339,11 @@ theorem viewTA_port_names (n : Text.WNet) (T : Text.WDef) : (viewTA n T).ports.m
 
 /-- **c04_view_hierA.**  C04 for a HIERARCHICAL netlist WITH ASSIGNS, up to the syntax trees: the file `top; then the
     definitions `Rs` in the writer's order` is accepted by the REAL `elabDesign`, the top is elected, and EVERY module shows
-    the view (`viewTA`: assignment instances first) of its definition in the netlist, every primitive its interface. -/
+    the view (`viewTA`: assignment instances first) of its definition in the netlist and its module parameters as written,
+    every primitive its interface, attributes and parameters.  Readings: the instance ORDER of a module with assigns changes
+    unless the assignment instances already come first; directions are compared through `dirV` (an undefined direction
+    counts as `inout`: the re-read port of an inferred black box is INOUT); instance rows are compared through
+    `connectedBlock` (no row widths); the netlist name, `n.top` as such and the order of the definitions are not stated. -/
 theorem c04_view_hierA (n : Text.WNet) (T : Text.WDef) (Rs : List Text.WDef) (m : WModPA) (Ms : List WAnyA)
     (defs : List Def) (nx : Nat) (hfragA : fragTopA n T = true) (hm : astOfA n T = some m)
     (hRs : Rs.mapM (astAnyA n) = some Ms) (hfa : ∀ r ∈ Rs, fragAnyA n r = true)
@@ -521,7 +525,9 @@ def fragHierA (n : Text.WNet) (T : Text.WDef) (Rs : List Text.WDef) : Bool :=
    | some m, some Ms => (buildHierA m.toA Ms).isSome
    | _, _ => false)
 
-/-- **c04_ast_hierA.**  `c04_view_hierA` from the decidable fragment predicate. -/
+/-- **c04_ast_hierA.**  `c04_view_hierA` from the decidable fragment predicate `fragHierA` (which contains the computed clause
+    `(buildHierA …).isSome`: the closed-form reader accepts the file, and `readAssign (emitAssign o i) = (o, i)` per
+    assignment instance).  See `c04_view_hierA` for how the conclusion has to be read. -/
 theorem c04_ast_hierA (n : Text.WNet) (T : Text.WDef) (Rs : List Text.WDef) (h : fragHierA n T Rs = true) :
     ∃ m Ms s, astOfA n T = some m ∧ Rs.mapM (astAnyA n) = some Ms ∧
       elabDesign (m.toA.toModule :: Ms.map WAnyA.toModule) = .ok s ∧ s.top = some T.name ∧ s.pending = [] ∧
